@@ -1,0 +1,31 @@
+//go:build verif
+
+// Verification hooks (build tag "verif"). Thin exported wrappers; no logic of their own.
+
+package raft
+
+import (
+	hraft "github.com/hashicorp/raft"
+)
+
+// VerifNewFSM builds a state machine from the options this node was created with,
+// exactly as RaftInit does.
+func (r *Raft) VerifNewFSM() hraft.FSM {
+	return NewFSM(FSMOpts{
+		Config:                r.options.Config,
+		GetState:              r.options.GetState,
+		GetCommand:            r.options.GetCommand,
+		SetValues:             r.options.SetValues,
+		SetExpiry:             r.options.SetExpiry,
+		DeleteKey:             r.options.DeleteKey,
+		StartSnapshot:         r.options.StartSnapshot,
+		FinishSnapshot:        r.options.FinishSnapshot,
+		SetLatestSnapshotTime: r.options.SetLatestSnapshotTime,
+		GetHandlerFuncParams:  r.options.GetHandlerFuncParams,
+	})
+}
+
+// VerifInner is the hashicorp/raft node (nil before RaftInit).
+func (r *Raft) VerifInner() *hraft.Raft {
+	return r.raft
+}
